@@ -2,18 +2,41 @@ import XProofs.Limits
 import XModel.Opt
 import XModel.OptBest
 import XProofs.OptBest2
+import XProofs.OptBest3
 /-!
 # C15 — the optimizer log is truthful: reload reproduces a row, steps never end worse
+
+All theorems are about the control skeleton `Opt.optStep` of ONE call of `Optimize.step` (`XModel/Opt.lean`).
+
+The `take_best` clause is `C15_take_best_pens` with its two branches `C15_take_best_none_branch` (the first minimum
+of the penalties recorded during the call is at the last position: the code does NOT reload, the log gets no further
+row) and `C15_take_best_reload_branch` (it is earlier: that row is reloaded, one copy appended).  They are stated on
+`Opt.takeBestArg pens start`, which is the code's (and the Lean driver's) decision rule, for `pens` an arbitrary list
+with one entry per ROW POSITION of the call.  `C15_take_best_on_the_log` (penalty a function of the row CONTENT, index
+always `some …`) is the special case `pens := rows.map pen` away from the last position
+(`C15_take_best_content_special_case`); when the argmin is the last position it describes a call the code does not make.
+
+What each appended row records is `C15_log_row_kinds` (normal return): kinds in order — read, evaluated …, read — each
+row tied to the state of the execution right after it was appended.  `C15_log_rows_are_evaluated_points` (any outcome)
+is weaker than it looks: `C15_truthful_loophole`.
+
+NOT covered: the penalty values themselves are the implementation's recorded numbers (the skeleton has no penalty
+function; the oracle harness/w_opt.py recomputes each logged penalty and target vector from the logged knobs),
+solve(), tag/enable/disable/clear_log.
 -/
 namespace Properties.C15
 open Opt
 
-/-- `take_best`: `np.argmin` returns an index of minimum penalty among the rows logged during the call -/
+/-- SUPERSEDED list fact (nothing about a call: `pens` is any non-empty list; used by `C15_take_best_reload_branch` /
+    `C15_take_best_none_branch`, which are the statements about the call).  `np.argmin` on a non-empty list returns
+    an in-range index of a minimal entry. -/
 theorem C15_take_best_minimum {K : Type} [LinearOrder K] (pens : List K) (hne : pens ≠ []) :
     Argmin.argmin pens < pens.length ∧ ∃ v, pens[Argmin.argmin pens]? = some v ∧ ∀ y ∈ pens, v ≤ y :=
   Argmin.argmin_min pens hne
 
-/-- hence the call never ends at a higher penalty than its start row (the start row is among them) -/
+/-- SUPERSEDED list fact (nothing about a call: `start`, `rest` are free).  The entry at the argmin of a list is not
+    above its head.  The statement about the call is in `C15_take_best_pens`: position 0 of `pens` is the start row's
+    penalty and the chosen position's penalty is ≤ the penalty at every position. -/
 theorem C15_never_worse {K : Type} [LinearOrder K] (start : K) (rest : List K) :
     ∃ v, (start :: rest)[Argmin.argmin (start :: rest)]? = some v ∧ v ≤ start := by
   obtain ⟨_, v, hv, hmin⟩ := Argmin.argmin_min (start :: rest) (by simp)
@@ -27,8 +50,9 @@ theorem C15_reload_row {R : Type} (c : Cfg R) (i : Nat) (row : Row R) (s : St R)
     ∀ j, s'.knobs j = row.knobs j ∨ s'.knobs j = c.mulW j (c.divW j (row.knobs j)) :=
   reload_frame c i row s r s' hrow h
 
-/-- SUPERSEDED by `C15_take_best_on_the_log` below (here `start`, `rest` and `n` are free: the penalties are not tied to the
-    log).  `step(take_best=True)` that returns normally ends either on the point the loop left with every active target
+/-- SUPERSEDED list fact glued to a call (kept for reference only; use `C15_take_best_pens`).  Here `start`, `rest` and
+    `n` are free — the penalties are tied neither to the log nor to the rows of the call — and the index is always
+    `some …`, which is not the code's call when the argmin is the last position.  `step(take_best=True)` that returns normally ends either on the point the loop left with every active target
     within tolerance, or — reloading index `n + argmin pens`, where `pens` are the penalties of the rows logged
     during the call starting at log position `n` — on the knobs and flags of that row (bit for bit, or through the
     weight round trip), whose penalty is minimal among `pens`, in particular not above the start row's -/
@@ -120,7 +144,9 @@ theorem C15_take_best_exact_unit_weights :
                     (∀ r' ∈ List.drop (List.length s.log) sl.log, pen r ≤ pen r') ∧ pen r ≤ pen (Opt.rowOf s) :=
   @Opt.optStep_take_best_argmin_exact
 
-/-- **what a row tells**: every row a `step()` appends, whatever the outcome, is the container and masks of a completed evaluation, or — the start row and reload copies — the knobs read just before an evaluation made at their weight round trip (`Truthful`; the two coincide for unit weights: `addPoint_row_vs_eval`, and differ otherwise: `Opt.BestExample`) -/
+/-- (weak: see `C15_truthful_loophole` — `Truthful` is a property of the row alone and holds for every row when the
+    user's function is total and the weights round-trip; the statement that pins rows to the execution is
+    `C15_log_row_kinds`.)  **what a row tells**: every row a `step()` appends, whatever the outcome, is the container and masks of a completed evaluation, or — the start row and reload copies — the knobs read just before an evaluation made at their weight round trip (`Truthful`; the two coincide for unit weights: `addPoint_row_vs_eval`, and differ otherwise: `Opt.BestExample`) -/
 theorem C15_log_rows_are_evaluated_points :
     ∀ {R : Type} (c : Opt.Cfg R) (its : List (Opt.Iter R)) (tb : Option ℕ) (s s' : Opt.St R)
       (r : Except Opt.Err Unit),
@@ -143,5 +169,195 @@ theorem C15_take_best_index_in_call :
   @Opt.take_best_argmin_index
 
 end wrapped
+
+/-! ### `take_best` as the code decides it, penalties per row position (`XModel/OptBest3.lean`, `XProofs/OptBest3.lean`) -/
+section perPosition
+
+/-- the decision rule, spelled out: `none` (no reload) when there is no penalty or the first minimum is at the last
+    position, else `some (argmin + start)`.  `Driver/OptD.lean` computes the `take_best` argument by this rule from the
+    penalties the implementation logged for the rows of the call. -/
+theorem C15_take_best_decision {K : Type} [LinearOrder K] (pens : List K) (start : ℕ) :
+    Opt.takeBestArg pens start =
+      if pens.isEmpty then none
+      else if Argmin.argmin pens + 1 = pens.length then none else some (Argmin.argmin pens + start) := rfl
+
+/-- **`take_best`, the best row is the last one: no reload.**  `sl` is the state the body of the call (start row, loop)
+    leaves; `pens` are the penalties THE IMPLEMENTATION RECORDED for the rows that body appended — an arbitrary list, one
+    entry per row position (second hypothesis); the code's decision `takeBestArg pens s.log.length` is `none`.  Then a
+    normal return ends on `sl`, nothing more is appended, the last appended row is at position `pens.length - 1` of the
+    call's rows and `sl` is the state of that row (container and masks ARE the row if an iteration ran; they are the
+    start row's weight round trip if none ran), and the penalty recorded at that position is ≤ the one at every position
+    and strictly below every earlier one.  Nothing is said about what the recorded numbers are. -/
+theorem C15_take_best_none_branch :
+    ∀ {R K : Type} [LinearOrder K] (pens : List K) (c : Opt.Cfg R)
+      (its : List (Opt.Iter R)) (s sl s' : Opt.St R),
+      Opt.optBody c its s = (Except.ok (), sl) →
+        pens.length = (List.drop s.log.length sl.log).length →
+          Opt.takeBestArg pens s.log.length = none →
+            Opt.optStep c its (Opt.takeBestArg pens s.log.length) s = (Except.ok (), s') →
+              s' = sl ∧
+                s'.log = sl.log ∧
+                  (∃ last,
+                      (List.drop s.log.length s'.log)[pens.length - 1]? = some last ∧
+                        s'.log.getLast? = some last ∧
+                          s'.vAct = last.vAct ∧
+                            s'.tAct = last.tAct ∧
+                              last.vAct = s.vAct ∧
+                                last.tAct = s.tAct ∧
+                                  (Opt.rowOf s' = last ∨
+                                    List.drop s.log.length s'.log = [Opt.rowOf s] ∧
+                                      last = Opt.rowOf s ∧
+                                        Opt.rowOf s' =
+                                          { knobs := Opt.roundTrip c s.vAct s.knobs, vAct := s.vAct, tAct := s.tAct })) ∧
+                    Argmin.argmin pens + 1 = pens.length ∧
+                      ∃ v,
+                        pens[pens.length - 1]? = some v ∧
+                          (∀ (j : ℕ) (y : K), pens[j]? = some y → v ≤ y) ∧
+                            ∀ (j : ℕ) (y : K), j < pens.length - 1 → pens[j]? = some y → v < y :=
+  @Opt.optStep_take_best_none_branch
+
+/-- **`take_best`, an earlier row is better: reload.**  The tolerance flag is off after the loop and the code's decision
+    `takeBestArg pens s.log.length` is `some i`, `pens` being the penalties the implementation recorded (an arbitrary
+    list; were it longer than the call's rows and `i` beyond them, `reload` would raise, so no length hypothesis is
+    needed).  On normal return log row `i` has been reloaded: `i - s.log.length = argmin pens` is a position of the
+    call's rows, not the last position of `pens`; the flags are that row's (= the entry flags), the container is the row's
+    weight round trip `k ↦ (k / w) * w` on the active knobs (each knob is the row's value or its image: `C15_reload_row`),
+    exactly one more row — a copy — is appended; the penalty recorded at that position is ≤ the one at every position
+    (in particular position 0, the start row) and strictly below every earlier one: it is the FIRST minimum. -/
+theorem C15_take_best_reload_branch :
+    ∀ {R K : Type} [LinearOrder K] (pens : List K) (c : Opt.Cfg R)
+      (its : List (Opt.Iter R)) (s sl s' : Opt.St R) (i : ℕ),
+      Opt.optBody c its s = (Except.ok (), sl) →
+        sl.lastWithin = false →
+          Opt.takeBestArg pens s.log.length = some i →
+            Opt.optStep c its (Opt.takeBestArg pens s.log.length) s = (Except.ok (), s') →
+              s.log.length ≤ i ∧
+                i - s.log.length = Argmin.argmin pens ∧
+                  Argmin.argmin pens + 1 < pens.length ∧
+                    (∃ row,
+                        sl.log[i]? = some row ∧
+                          (List.drop s.log.length sl.log)[Argmin.argmin pens]? = some row ∧
+                            s'.log = sl.log ++ [row] ∧
+                              s'.vAct = row.vAct ∧
+                                s'.tAct = row.tAct ∧
+                                  row.vAct = s.vAct ∧
+                                    row.tAct = s.tAct ∧
+                                      s'.knobs = Opt.roundTrip c row.vAct row.knobs ∧
+                                        (∀ (j : ℕ),
+                                            s'.knobs j = row.knobs j ∨
+                                              s'.knobs j = c.mulW j (c.divW j (row.knobs j))) ∧
+                                          Opt.Coh c s') ∧
+                      ∃ v,
+                        pens[Argmin.argmin pens]? = some v ∧
+                          (∀ (j : ℕ) (y : K), pens[j]? = some y → v ≤ y) ∧
+                            ∀ (j : ℕ) (y : K), j < Argmin.argmin pens → pens[j]? = some y → v < y :=
+  @Opt.optStep_take_best_reload_branch
+
+/-- **all three ways a normal return of `step(take_best=True)` ends** (flag set; flag off and no reload; flag off and
+    reload), with the code's decision on the recorded penalties, one per row position of the call -/
+theorem C15_take_best_pens {R K : Type} [LinearOrder K] (pens : List K) (c : Opt.Cfg R) (its : List (Opt.Iter R))
+    (s sl s' : Opt.St R)
+    (hb : Opt.optBody c its s = (Except.ok (), sl))
+    (hlen : pens.length = (List.drop s.log.length sl.log).length)
+    (h : Opt.optStep c its (Opt.takeBestArg pens s.log.length) s = (Except.ok (), s')) :
+    (sl.lastWithin = true ∧ s' = sl ∧ ∃ res, c.f s'.knobs = some res ∧ c.within res s'.tAct = true) ∨
+    (sl.lastWithin = false ∧ Opt.takeBestArg pens s.log.length = none ∧ s' = sl ∧ s'.log = sl.log ∧
+      Argmin.argmin pens + 1 = pens.length) ∨
+    (sl.lastWithin = false ∧ ∃ i row, Opt.takeBestArg pens s.log.length = some i ∧
+      i = Argmin.argmin pens + s.log.length ∧ Argmin.argmin pens + 1 < pens.length ∧
+      sl.log[i]? = some row ∧ s'.log = sl.log ++ [row]) := by
+  rcases Opt.optStep_take_best_pens pens c its s sl s' hb hlen h with
+    h1 | ⟨hw, htb, hs, hl, _, ha, _⟩ | ⟨hw, i, htb, _, _, hlt, ⟨row, r1, _, r3, _⟩, _⟩
+  · exact Or.inl h1
+  · exact Or.inr (Or.inl ⟨hw, htb, hs, hl, ha⟩)
+  · exact Or.inr (Or.inr ⟨hw, i, row, htb, (Opt.takeBestArg_some_spec pens _ i htb).2.1, hlt, r1, r3⟩)
+
+/-- **the content-based statement is the special case `pens := rows.map pen`** (the length hypothesis then holds by
+    construction).  In the no-reload branch the last appended row has minimal `pen`; in the reload branch the reloaded
+    row has, as in `C15_take_best_on_the_log`. -/
+theorem C15_take_best_content_special_case :
+    ∀ {R K : Type} [LinearOrder K] (pen : Opt.Row R → K) (c : Opt.Cfg R)
+      (its : List (Opt.Iter R)) (s sl s' : Opt.St R),
+      Opt.optBody c its s = (Except.ok (), sl) →
+        Opt.optStep c its (Opt.takeBestArg (List.map pen (List.drop s.log.length sl.log)) s.log.length) s =
+            (Except.ok (), s') →
+          (sl.lastWithin = true ∧ s' = sl ∧ ∃ res, c.f s'.knobs = some res ∧ c.within res s'.tAct = true) ∨
+            (sl.lastWithin = false ∧
+                Opt.takeBestArg (List.map pen (List.drop s.log.length sl.log)) s.log.length = none ∧
+                  s' = sl ∧
+                    ∃ last,
+                      s'.log.getLast? = some last ∧
+                        last ∈ List.drop s.log.length sl.log ∧
+                          (Opt.rowOf s' = last ∨
+                              last = Opt.rowOf s ∧
+                                Opt.rowOf s' =
+                                  { knobs := Opt.roundTrip c s.vAct s.knobs, vAct := s.vAct, tAct := s.tAct }) ∧
+                            (∀ r' ∈ List.drop s.log.length sl.log, pen last ≤ pen r') ∧
+                              pen last ≤ pen (Opt.rowOf s)) ∨
+              sl.lastWithin = false ∧
+                ∃ r ∈ List.drop s.log.length sl.log,
+                  Opt.takeBestArg (List.map pen (List.drop s.log.length sl.log)) s.log.length =
+                      some (Argmin.argmin (List.map pen (List.drop s.log.length sl.log)) + s.log.length) ∧
+                    (List.drop s.log.length sl.log)[Argmin.argmin (List.map pen (List.drop s.log.length sl.log))]? =
+                        some r ∧
+                      s'.vAct = r.vAct ∧
+                        s'.tAct = r.tAct ∧
+                          r.vAct = s.vAct ∧
+                            r.tAct = s.tAct ∧
+                              s'.knobs = Opt.roundTrip c r.vAct r.knobs ∧
+                                (∀ (j : ℕ),
+                                    s'.knobs j = r.knobs j ∨ s'.knobs j = c.mulW j (c.divW j (r.knobs j))) ∧
+                                  s'.log = sl.log ++ [r] ∧
+                                    (∀ r' ∈ List.drop s.log.length sl.log, pen r ≤ pen r') ∧
+                                      pen r ≤ pen (Opt.rowOf s) :=
+  @Opt.optStep_take_best_content
+
+/-- **which appended row records what** (normal return of one `step`).  There are the state `s1` that
+    `add_point_to_log` leaves at entry, the state `sl` the loop leaves, and an optional reload entry `tail`, such that
+    the rows appended are IN ORDER the rows of the entries
+    `(read, container and masks of the entry state, s1)`, then `(eval, container and masks of t, t)` for each state `t`
+    of `loopTrace` — the state each executed iteration leaves —, then `tail`;
+    every entry `(kind, row, post)` satisfies `RowRec c kind row post`: for `eval`, `post` is coherent and the row IS its
+    container and masks (the last completed evaluation was at `row.knobs` under `row.tAct`: `Opt.RowRec.eval_spec`); for
+    `read`, `post` is coherent and holds the weight ROUND TRIP of the row's knobs (the evaluation made when the row was
+    appended was there, not at `row.knobs`: `Opt.RowRec.read_spec`);
+    `sl` is the last state of `s1 :: loopTrace`; and `tail` is empty (the call ends on `sl`: no index, or tolerance met)
+    or is the single entry `(read, sl.log[i], s')` of the reloaded row.
+    The states are those of the execution, not existentially chosen: a log containing a made-up row fails this
+    statement while passing `C15_log_rows_are_evaluated_points` (`Opt.GarbageExample.garbage_not_logKinds`,
+    `garbage_truthful`). -/
+theorem C15_log_row_kinds {R : Type} (c : Opt.Cfg R) (its : List (Opt.Iter R)) (tb : Option ℕ) (s s' : Opt.St R)
+    (h : Opt.optStep c its tb s = (Except.ok (), s')) :
+    ∃ (s1 sl : Opt.St R) (tail : List (Opt.RowKind × Opt.Row R × Opt.St R)),
+      Opt.addPoint c s = (Except.ok (), s1) ∧ Opt.optLoop c its s1 = (Except.ok (), sl) ∧
+      s'.log = s.log ++ (Opt.callEntries c its s s1 ++ tail).map (fun e => e.2.1) ∧
+      (∀ e ∈ Opt.callEntries c its s s1 ++ tail, Opt.RowRec c e.1 e.2.1 e.2.2) ∧
+      (s1 :: Opt.loopTrace c its s1).getLast? = some sl ∧
+      ((tail = [] ∧ s' = sl ∧ (tb = none ∨ sl.lastWithin = true)) ∨
+       (∃ i row, tb = some i ∧ sl.lastWithin = false ∧ sl.log[i]? = some row ∧
+          tail = [(Opt.RowKind.read, row, s')])) :=
+  Opt.optStep_log_kinds c its tb s s' h
+
+/-- the kinds of the body's entries in order: `read`, then `eval` once per executed iteration -/
+theorem C15_log_row_kinds_order {R : Type} (c : Opt.Cfg R) (its : List (Opt.Iter R)) (s s1 : Opt.St R) :
+    (Opt.callEntries c its s s1).map (fun e => e.1) =
+      Opt.RowKind.read :: List.replicate (Opt.loopTrace c its s1).length Opt.RowKind.eval :=
+  Opt.callEntries_kinds c its s s1
+
+/-- **the loophole of `C15_log_rows_are_evaluated_points`**: if the user's function never raises and the weights
+    round-trip, EVERY row is `Truthful`, so that theorem does not constrain the content of the log at all -/
+theorem C15_truthful_loophole {R : Type} (c : Opt.Cfg R) (htot : ∀ k, ∃ res, c.f k = some res)
+    (hunit : ∀ j x, c.mulW j (c.divW j x) = x) (row : Opt.Row R) : Opt.Truthful c row :=
+  Opt.truthful_of_total_unit c htot hunit row
+
+/-- a log with a made-up row: every appended row is `Truthful`, yet `C15_log_row_kinds`' conclusion fails -/
+theorem C15_garbage_log_rejected :
+    (∃ suf, Opt.GarbageExample.garbageEnd.log = Opt.BestExample.s0.log ++ suf ∧
+      ∀ row ∈ suf, Opt.Truthful Opt.GarbageExample.cfgU row) ∧
+    ¬ Opt.LogKinds Opt.GarbageExample.cfgU [Opt.BestExample.itTo 4] none Opt.BestExample.s0
+        Opt.GarbageExample.garbageEnd :=
+  ⟨Opt.GarbageExample.garbage_truthful, Opt.GarbageExample.garbage_not_logKinds⟩
+
+end perPosition
 
 end Properties.C15
